@@ -43,10 +43,15 @@ func (f *Isqrt) Call(s *slip.Scope, args slip.List, depth int) (result slip.Obje
 	slip.CheckArgCount(s, depth, f, args, 1, 1)
 	switch ta := args[0].(type) {
 	case *slip.Bignum:
-		result = (*slip.Bignum)((*big.Int)(ta).Sqrt((*big.Int)(ta)))
-	case *slip.LongFloat:
+		// The root goes into a new value, the argument must not change.
 		var z big.Int
-		bi, _ := (*big.Float)(ta).Sqrt((*big.Float)(ta)).Int(&z)
+		result = (*slip.Bignum)(z.Sqrt((*big.Int)(ta)))
+	case *slip.LongFloat:
+		var (
+			z  big.Int
+			zf big.Float
+		)
+		bi, _ := zf.Sqrt((*big.Float)(ta)).Int(&z)
 		result = (*slip.Bignum)(bi)
 	case slip.Real:
 		rv := ta.RealValue()
